@@ -6,6 +6,7 @@ Oracle ops for the `num` family (C10).  Byte strings are lowercase hex, empty = 
   num uint <bits> <hex>                    → `ok <v>` | `E syntax` | `E range`      uint arshaler
   num intv  <bits> <stringify 0|1> <kind n|s|0|x> <hex>   → `set <v>` | `null` | `E syntax|range|mismatch`
   num uintv <bits> <stringify 0|1> <kind n|s|0|x> <hex>   → same (hex = literal, or unquoted content for kind s)
+  num floatv <32|64> <stringify 0|1> <kind n|s|0|x> <hex>  → `set <ieee bits, decimal>` | `null` | `E syntax|range|mismatch`   float unmarshaler
   num tokint  <hex>                        → `<v> <none|syntax|range>`   Token.Int on a raw number
   num tokuint <hex>                        → `<v> <none|syntax|range>`   Token.Uint
   num tokfloat <32|64> <hex>               → `<ieee bits, decimal> <none|range>`   Token.Float / exact ParseFloat
@@ -64,6 +65,11 @@ def handle (op : String) (args : List String) : String :=
     | _, _, _ => badArgs
   | "uintv", [bits, st, k, h] => match bits.toNat?, parseKind k, bytesOfHex h with
     | some w, some k, some b => showStored (unmarshalUintValue w (st == "1") k b)
+    | _, _, _ => badArgs
+  | "floatv", [bits, st, k, h] => match fmtOf bits, parseKind k, bytesOfHex h with
+    | some ff, some k, some b =>
+      (match unmarshalFloatValue (parseFloatExact ff) (st == "1") k b with
+       | .set f => s!"set {f.toBits ff}" | .null => "null" | .err e => showArshErr e)
     | _, _, _ => badArgs
   | "tokint", [h] => match bytesOfHex h with
     | some b => let (v, e) := tokenInt pf64 b; s!"{v} {showNumErr e}"
